@@ -14,6 +14,7 @@ import (
 )
 
 type assignPat struct {
+	anyRef bool // every object of the component family
 	prefix string
 	ref    string // "" = any object
 	idx    string // "" = any index / not indexed
@@ -25,6 +26,16 @@ type assignPat struct {
 // (ct may be nil: safety sweep only).
 func VerifyFunc(ld *Loader, db *ContractDB, fn *ssa.Function, ct *FuncContract, opts verifyOpts) (vc *VC, ex *Exec, err error) {
 	ex = newExec(ld, db, fn)
+	canonTerm = func(t string) string {
+		for i := 0; i < 50; i++ {
+			d, ok := ex.vc.defs[t]
+			if !ok {
+				break
+			}
+			t = d
+		}
+		return t
+	}
 	ex.lockChecks = opts.lockChecks
 	ex.fpUF = opts.fpUF
 	if ct != nil {
@@ -333,6 +344,18 @@ func (ex *Exec) onLock(st *State, fr *Frame, k string, recv Val, pos token.Pos) 
 			ex.assume(st, cj.term)
 		}
 	}
+	// contract clauses that speak about the state right after this Lock()
+	if top := ex.topFrame; top != nil && top.ct != nil && fr == top {
+		ex.lockSnap = st.clone()
+		for _, cl := range top.ct.AfterLockAssume {
+			ex.assume(st, ex.evalBool(top, st, top.entry, nil, cl.Expr))
+			ex.vc.Trust("assumed after Lock() in " + funcName(top.fn) + ": " + cl.Text)
+		}
+		for _, ap := range top.ct.AfterLockApply {
+			c := ex.newCtx(top, st, top.entry, nil)
+			ex.assume(st, ex.applyLemma(top, st, c, ap, funcName(top.fn)))
+		}
+	}
 	ex.lockSnap = st.clone()
 }
 
@@ -475,7 +498,7 @@ func (ex *Exec) guardedAccess(st *State, fr *Frame, a *Addr, pos token.Pos) {
 				continue
 			}
 			mi := fieldIndex(stt, ld.MuField)
-			lk := &Addr{Kind: AHeap, Root: a.Root, Ref: a.Ref, ArrLen: -1, Path: append(append([]PathEl{}, a.Path[:i]...), PathEl{Field: mi})}
+			lk := &Addr{Kind: AHeap, Root: a.Root, Ref: canonTerm(a.Ref), ArrLen: -1, Path: append(append([]PathEl{}, a.Path[:i]...), PathEl{Field: mi})}
 			ex.oblige(st, fr, "guarded("+fname+")", pos, "", lockTerm(st, lk.String()))
 		}
 		t = stt.Field(el.Field).Type()
@@ -498,6 +521,25 @@ func (ex *Exec) compileAssigns(fr *Frame, st *State, ct *FuncContract) {
 // reference (evaluated in the pre-state).
 func (c *evalCtx) compileAssign(e Expr, text string) []assignPat {
 	switch x := e.(type) {
+	case *ECall:
+		if x.Fn == "guarded" && len(x.Args) == 1 {
+			// everything the named mutex guards (whole component families)
+			v := c.eval(x.Args[0])
+			p, ok := v.V.(*PtrI)
+			if !ok {
+				c.errf("assigns %s: not a mutex", text)
+			}
+			ld, ownerAddr, ownerT := c.ex.lockDeclFor(p.A)
+			if ld == nil {
+				c.errf("assigns %s: no lock declaration for this mutex", text)
+			}
+			var out []assignPat
+			for pre := range c.ex.reachableComps(ownerAddr, ownerT, ld) {
+				out = append(out, assignPat{prefix: pre, anyRef: true, isMap: hasPrefix(pre, "Map_"), text: text})
+			}
+			sort.Slice(out, func(i, j int) bool { return out[i].prefix < out[j].prefix })
+			return out
+		}
 	case *EIdent:
 		if strings.HasPrefix(x.Name, "$") {
 			return []assignPat{{prefix: "Ghost_" + strings.TrimPrefix(x.Name, "$"), ref: z64(), text: text}}
@@ -573,6 +615,9 @@ func addrCompPrefix(a *Addr) string {
 }
 
 func (ex *Exec) checkAssigns(st *State, fr *Frame, a *Addr, pos token.Pos) {
+	if a.opaqueOnPath() {
+		return // fields of opaque library objects are not verified state
+	}
 	ex.guardedAccess(st, fr, a, pos)
 	if !ex.assignsOn || ex.assignsAll || a.Kind == ACell || a.Kind == AGlobal {
 		return
@@ -581,6 +626,10 @@ func (ex *Exec) checkAssigns(st *State, fr *Frame, a *Addr, pos token.Pos) {
 	alts := []string{not(sel(ex.curFrameEntryAlloc(), a.Ref))}
 	for _, p := range ex.assigns {
 		if p.isMap || !(hasPrefix(prefix, p.prefix) || hasPrefix(p.prefix, prefix)) {
+			continue
+		}
+		if p.anyRef {
+			alts = append(alts, "true")
 			continue
 		}
 		cond := eq(a.Ref, p.ref)
@@ -602,6 +651,10 @@ func (ex *Exec) checkAssignsMap(st *State, fr *Frame, mt types.Type, m, k string
 	alts := []string{not(sel("alloc0", m))}
 	for _, p := range ex.assigns {
 		if !p.isMap || p.prefix != prefix {
+			continue
+		}
+		if p.anyRef {
+			alts = append(alts, "true")
 			continue
 		}
 		cond := eq(m, p.ref)
@@ -643,7 +696,13 @@ func (ex *Exec) callModular(st *State, fr *Frame, callee *ssa.Function, ct *Func
 	rt := callee.Signature.Results()
 	for i := 0; i < rt.Len(); i++ {
 		v := ex.freshVal(rt.At(i).Type(), "r_"+callee.Name())
-		ex.validRefs(st, v, rt.At(i).Type())
+		// the callee may have allocated what it returns: the result references
+		// are allocated afterwards (whether or not they were before)
+		for _, l := range leavesOf(v) {
+			if l.S == SRef {
+				st.alloc = ex.vc.Bind("alloc", ArrS(SRef, SBool), ite(eq(l.T, z64()), st.alloc, sto(st.alloc, l.T, "true")))
+			}
+		}
 		res = append(res, v)
 	}
 	for _, en := range ct.Ensures {
@@ -654,6 +713,23 @@ func (ex *Exec) callModular(st *State, fr *Frame, callee *ssa.Function, ct *Func
 }
 
 func (ex *Exec) havocPattern(st *State, fr *Frame, p assignPat, pos token.Pos) {
+	if p.anyRef {
+		if ex.assignsOn && !ex.assignsAll {
+			okc := "false"
+			for _, q := range ex.assigns {
+				if q.anyRef && hasPrefix(p.prefix, q.prefix) {
+					okc = "true"
+				}
+			}
+			ex.oblige(st, fr, "assigns", pos, "callee may write "+p.text+" ("+p.prefix+")", okc)
+		}
+		pre := map[string]bool{p.prefix: true}
+		ex.epochs++
+		ex.epochInfo[ex.epochs] = epochInfo{parent: st.epoch, prefixes: pre}
+		st.epoch = ex.epochs
+		ex.havocComps(st, pre)
+		return
+	}
 	// the caller must itself be allowed to write what the callee may write
 	if ex.assignsOn && !ex.assignsAll {
 		ok := []string{not(sel("alloc0", p.ref))}
